@@ -1232,7 +1232,6 @@ func internTransparent(w *World, tname, path string) string {
 	return "every reader (" + strings.Join(readers, ", ") + ") returns its argument or a value tested equal to it"
 }
 
-
 // foreignResettable: *T for a named type T of another package that has a Reset() method
 // (bytes.Buffer, strings.Builder, bufio.Writer …): the content of such an object is its state.
 func foreignResettable(pt *types.Pointer) (string, bool) {
